@@ -65,6 +65,7 @@ def child_env(extra: dict | None = None) -> dict:
     env["PYTHONPATH"] = os.pathsep.join(pp)
     env["PYTHONDONTWRITEBYTECODE"] = "1"
     env["PYTHONHASHSEED"] = "0"
+    env["VERIF_REPO"] = REPO
     env.pop("EXECNET_DEBUG", None)
     if extra:
         env.update(extra)
@@ -410,14 +411,17 @@ def drive(mod, tier: str, seed: int) -> int:
         else:
             new.append(v)
 
-    os.makedirs(os.path.join(VERIF, "evidence"), exist_ok=True)
-    os.makedirs(os.path.join(VERIF, "replays"), exist_ok=True)
+    # (side runs against a scratch tree - VERIF_REPO - keep their output away from the real evidence)
+    evdir = os.environ.get("VERIF_EVIDENCE_DIR") or os.path.join(VERIF, "evidence")
+    rpdir = os.environ.get("VERIF_EVIDENCE_DIR") or os.path.join(VERIF, "replays")
+    os.makedirs(evdir, exist_ok=True)
+    os.makedirs(rpdir, exist_ok=True)
     lines: list[str] = []
     by_mech: dict[str, list[dict]] = {}
     for v in new:
         by_mech.setdefault(v["mechanism"], []).append(v)
     for m, vs in by_mech.items():
-        rp = os.path.join(VERIF, "replays", f"{pid}-{h64(m)}.json")
+        rp = os.path.join(rpdir, f"{pid}-{h64(m)}.json")
         with open(rp, "w") as f:
             json.dump({"property": pid, "tier": tier, "seed": seed, "mechanism": m,
                        "count": len(vs), "witnesses": vs[:10]}, f, indent=1, default=repr)
@@ -451,7 +455,7 @@ def drive(mod, tier: str, seed: int) -> int:
         "inconclusive": inconclusive[:20],
         "verdict": "violated" if new else ("inconclusive" if inconclusive else "held-on-observed"),
     }
-    with open(os.path.join(VERIF, "evidence", f"{pid}.json"), "w") as f:
+    with open(os.path.join(evdir, f"{pid}.json"), "w") as f:
         json.dump(evidence, f, indent=1, default=repr)
         f.write("\n")
 
